@@ -892,7 +892,8 @@ export class RegexRuntype extends BaseRuntype {
     return this.description;
   }
   schema(_ctx: SchemaContext): JSONSchema7 {
-    return annotateSchema(this.metadata, { type: "string", pattern: this.description });
+    // the regular expression itself; the description is TypeScript text such as `${number}px`
+    return annotateSchema(this.metadata, { type: "string", pattern: this.regex.source });
   }
   validate(_ctx: ValidateContext, input: unknown): boolean {
     if (typeof input === "string") {
